@@ -180,6 +180,16 @@ def c13_case(case):
             break
         if lay is None:
             return {"drop": why}
+        text_lines = lay.text.splitlines()
+        def attached_comment(L):
+            i = L - 2                                        # index of the line above the site
+            while i >= 0 and text_lines[i].strip().startswith(("import ", "from ")):
+                i -= 1                                       # the site sits in a block of imports: look above the block
+            return i >= 0 and text_lines[i].strip().startswith("#")
+        if any(attached_comment(L) for L in C):
+            # a comment directly above belongs to the statement (libcst: its leading lines; order-imports moves and reports the block
+            # from there): not one of the property's single-line candidate sites
+            return {"drop": "site-with-attached-comment"}
         rep0 = [c["lineNumber"] for res in (r0["report"] or {}).get("results", []) for cs in res["changeset"] for c in cs["changes"]]
         out = {"codemod": cid, "sites": C, "baseline_lines": sorted(set(rep0)), "scenarios": [],
                "single_line": all(sites.single_line_construct(lay.text, L) for L in C)}
